@@ -4,12 +4,16 @@ package main
 
 import (
 	"fmt"
+	"sync"
 	"go/types"
 	"sort"
 	"strings"
 
 	"golang.org/x/tools/go/ssa"
 )
+
+var branchProf map[string]int
+var branchProfMu sync.Mutex
 
 type Draw struct {
 	Kind  string  `json:"k"` // byte, u16, u32, u64, bool, bytes, len, choice
@@ -66,6 +70,7 @@ type Exec struct {
 	assertsSeen map[string]int
 	params map[string]int
 	nCtx int
+	curPos string
 	randLog [][]*Term
 	retryAttempts int
 	pcSetNames map[string]bool
@@ -256,6 +261,11 @@ func (ex *Exec) branch(c *Term) bool {
 		return false
 	}
 	ex.out.nBranchQ++
+	if branchProf != nil {
+		branchProfMu.Lock()
+		branchProf[ex.curPos]++
+		branchProfMu.Unlock()
+	}
 	rt := ex.check(c)
 	var rf string
 	if rt == "unsat" {
